@@ -23,6 +23,7 @@ inline int point_code(const char *id) {
         {"sf_set", 52}, {"sf_clr", 53}, {"sf_inc", 54},
         {"busy_n", 43},
         {"a_ld", 44},   {"a_st", 45},   {"a_x", 46},    {"a_cas", 47},
+        {"wstart", 13},
     };
     for (auto &p : tbl)
         if (!std::strcmp(p.first, id)) return p.second;
@@ -93,7 +94,9 @@ struct Controller {
     }
 
     // runs the threads under the schedule; returns when no thread is enabled
-    void run(std::vector<std::function<void()>> fns, const std::vector<long> &sched) {
+    // init_order (optional): the order in which the threads run up to their first yield point; default 0..n-1
+    void run(std::vector<std::function<void()>> fns, const std::vector<long> &sched,
+             const std::vector<int> &init_order = {}) {
         vh::t_count = false;
         active() = this;
         auto &h = cocls::verif::get_hooks();
@@ -123,8 +126,8 @@ struct Controller {
         }
         std::unique_lock lk(mx);
         // init phase: every thread runs up to its first yield point (no trace entry)
-        for (int i = 0; i < n; i++) {
-            current = i;
+        for (int j = 0; j < n; j++) {
+            current = (int)init_order.size() == n ? init_order[j] : j;
             cv.notify_all();
             wait_controller(lk);
         }
